@@ -23,7 +23,8 @@ VARIABLES g, last
 vars == <<g, last>>
 
 Cats   == {"undef", "dbd", "bkg"}
-Ranges == {"none", "ok", "inv"}   \* no window / 0.5..2.0 MeV / 2.0..1.0 MeV
+Ranges == {"none", "ok", "inv", "lo", "hi"}   \* no window / 0.5..2.0 MeV / 2.0..1.0 MeV / lower bound only (0.5..) / upper bound only (..2.0)
+WindowSet == {"ok", "lo", "hi"}               \* a half-open window is a window: an unset bound keeps the engine's default
 
 Fresh == [init |-> FALSE, cat |-> "undef", iso |-> "", ver |-> FALSE, level |-> -1,
           mode |-> 0, range |-> "none", nops |-> 0, count |-> 0]
@@ -67,7 +68,7 @@ EngineOK(c) ==
                /\ (Spin(c.level) = 2 => c.mode \in ModesFor2)
                /\ c.mode \notin {9, 10, 11, 12}          \* Mo100 is a 2b- emitter
                /\ c.mode # 20                            \* 4b only for Zr96, Xe136, Nd150
-               /\ (c.range = "ok" => c.mode \in WindowModes)
+               /\ (c.range \in WindowSet => c.mode \in WindowModes)
 
 Accept(c) == PreOK(c) /\ EngineOK(c)
 
